@@ -25,8 +25,9 @@ STUBS = P.STUBS_PIPELINE + [
     "position in the stream, arguments); the module-level numpy.random.* functions are unseeded sources (fresh value per call); the "
     "per-stratum ppf / cdf are uninterpreted functions"]
 ASSUMES = P.ASSUMES_PIPELINE
-OUTSIDE = P.OUTSIDE_PIPELINE + ["'under different hash seeds': set / dict iteration order inside CPython is not observable to the "
-                                "symbolic proxies - NOT covered", "bootstrap: cross-validation folds (cv_lambda) and the multi-contest branch of "
+OUTSIDE = P.OUTSIDE_PIPELINE + ["'under different hash seeds' is covered differentially (three interpreters with different PYTHONHASHSEED run the "
+                                "same symbolic path and its concrete replay; output terms, stub arguments and floats are compared), for three "
+                                "cases and one path each, not for every path", "bootstrap: cross-validation folds (cv_lambda) and the multi-contest branch of "
                                 "_sample_test_epsilon (np.corrcoef / block_diag on symbolic values) are not executed"]
 BOUNDS = {"quick": "NP (4 reporting) and GA (7 reporting), 2 nonreporting, 1 unexpected; histories on one client: [R, R], [R, R', R] with R' a "
                    "different estimator / alphas / estimands / aggregates, and fresh client vs used client; same config object reused; seed "
@@ -347,3 +348,64 @@ def run_bs_entropy(ctx, case):
         for i, (u, v) in enumerate(zip(xa, xb)):
             obl.append(("bootstrap draw %s[%d] is a function of the seed setting only" % (k, i), T.cell_equal(u, v)))
     return obl, {}
+
+
+# ------------------------------------------------------------------------------------------------ hash seeds
+HASHSEED_CASES = ["ga_history_same", "no_history_same", "ga_history_other_aggregates"]
+
+
+def main(tier, seed, jobs, only):
+    """the ordinary cases, plus: the same symbolic path and its concrete replay in interpreters started with different
+    PYTHONHASHSEED must give the same output terms, the same arguments to the nondeterministic stubs and the same floats"""
+    import json
+    import os
+    import subprocess
+    import sys
+    import time
+    from engine import harness as H
+
+    t0 = time.time()
+    code, ev, lines = H.run_module(__name__, tier, seed, jobs=jobs, only=only)
+    cov = ev["coverage"]
+    results = []
+    for cname in HASHSEED_CASES:
+        if only and not __import__("re").search(only, cname + "_hashseed"):
+            continue
+        digests = []
+        for hs in ("1", "2", "77"):
+            env = dict(os.environ, PYTHONHASHSEED=hs)
+            try:
+                p = subprocess.run([sys.executable, "-m", "engine.hashdiff", __name__, cname, tier], capture_output=True, text=True,
+                                   timeout=600, env=env, cwd=H.VERIF)
+                line = next((l for l in p.stdout.splitlines() if l.startswith("HASHDIFF ")), None)
+                digests.append(json.loads(line[9:]) if line else None)
+            except subprocess.TimeoutExpired:
+                digests.append(None)
+        results.append((cname, digests))
+    cov["hash_seed_differential"] = [dict(case=c, digests=d) for c, d in results]
+    for cname, d in results:
+        cov["obligations"] += 1
+        if any(x is None for x in d):
+            cov.setdefault("inconclusive", []).append("hash-seed run of %s did not finish" % cname)
+            code = code if code == 1 else 2
+            continue
+        same_sym = len({(x["symbolic"], x["stubs"], x["key_order"], json.dumps(x["seeds"])) for x in d}) == 1
+        same_conc = len({(x["concrete"], json.dumps(x["seeds"])) for x in d}) == 1
+        if same_sym and same_conc:
+            cov["discharged"] += 1
+            continue
+        if not same_conc:
+            path = os.path.join(H.VERIF, "replays", "C12_hashseed_%s.json" % cname)
+            os.makedirs(os.path.dirname(path), exist_ok=True)
+            json.dump(dict(property=ID, module=__name__, hash_seed_differential=dict(case=cname, digests=d,
+                      how="PYTHONHASHSEED=<1|2|77> ./.venv/bin/python -m engine.hashdiff harness.c12 %s %s" % (cname, tier))), open(path, "w"), indent=1)
+            lines.append("VIOLATION property=C12 replay=%s" % path)
+            lines.append("  hash-seed|%s|outputs or resampling seeds differ between interpreters with different PYTHONHASHSEED" % cname)
+            ev["violations"] = ev.get("violations", 0) + 1
+            code = 1
+        else:
+            cov.setdefault("inconclusive", []).append("hash-seed: symbolic digests of %s differ but the concrete replays agree" % cname)
+            code = code if code == 1 else 2
+    cov["exhaustive"] = code == 0
+    ev["wall_s"] = round(time.time() - t0, 2)
+    return code, ev, lines
